@@ -1328,6 +1328,12 @@ func (vfs *MemFS) rename(oldpath, newpath string) (retry bool, err error) {
 
 	defer first.mu.Unlock()
 
+	// Two calls holding disjoint pairs of directories may each move a directory below the one moved by the other :
+	// if both found renameSeq unchanged before either incremented it, both directories would leave the tree.
+	verifYield(vfs.renameMu, true)
+	vfs.renameMu.Lock()
+	defer vfs.renameMu.Unlock()
+
 	if oParent.removed || nParent.removed || vfs.renameSeqNow() != seq ||
 		oParent.children[oPI.Part()] != oChild || nParent.children[nPI.Part()] != nChild {
 		return true, nil
